@@ -236,6 +236,7 @@ fn dv_error(e: &DataVerifierError) -> (String, String) {
         DataVerifierError::PeerIdNotFound(p) => ("PeerIdNotFound".into(), p.clone()),
         DataVerifierError::SignatureMismatch { peer_id, .. } => ("SignatureMismatch".into(), peer_id.clone()),
         DataVerifierError::MergeMismatch { peer_id, .. } => ("MergeMismatch".into(), peer_id.clone()),
+        DataVerifierError::CidNotFound { .. } => ("CidNotFound".into(), String::new()),
     }
 }
 
